@@ -104,7 +104,7 @@ Definition is_passthrough (pt : bool) (host : string) : bool :=
 
 (* [cleanup] = whether addOrUpdateTransportServer removes a stale passthrough pair when the
    TransportServer is no longer a passthrough one.  The current code does not (cleanup = false,
-   finding F30); with the proposed fix fixes/F30.diff it does (cleanup = true). *)
+   finding F33); with the proposed fix fixes/F33.diff it does (cleanup = true). *)
 Definition add_step (cleanup : bool) (a : addop) (w : world) : world :=
   let c := cs w in let d := dk w in
   match a with
